@@ -22,8 +22,10 @@ import (
 	"time"
 
 	"com.tuntun.rangers/node/src/common"
+	middleware_pb "com.tuntun.rangers/node/src/middleware/pb"
 	"com.tuntun.rangers/node/src/middleware/types"
 	"com.tuntun.rangers/node/src/utility"
+	"github.com/gogo/protobuf/proto"
 	"verif/harness/hx"
 )
 
@@ -565,8 +567,56 @@ func doGM(o *hx.Out, g *types.Group) []byte {
 	return out
 }
 
+func ansMU(b []byte) string {
+	m, err := types.UnMarshalMember(b)
+	if err != nil {
+		return errClass(err)
+	}
+	if m == nil {
+		return "nil"
+	}
+	return "ok " + tokOpt(m.Id) + " " + tokOpt(m.PubKey)
+}
+
+// ansGroups: the group-sync receive path: proto.Unmarshal into a GroupSlice, then types.PbToGroups.
+func ansGroups(b []byte) string {
+	gs := new(middleware_pb.GroupSlice)
+	if err := proto.Unmarshal(b, gs); err != nil {
+		return errClass(err)
+	}
+	groups := types.PbToGroups(gs)
+	if len(groups) == 0 {
+		return "ok 0"
+	}
+	ps := []string{strconv.Itoa(len(groups))}
+	for _, g := range groups {
+		if g == nil {
+			return "nil"
+		}
+		ps = append(ps, tokGroup(g))
+	}
+	return "ok " + strings.Join(ps, " ")
+}
+
+func doMM(o *hx.Out, m *types.Member) []byte {
+	var out []byte
+	o.Do("mm "+tokOpt(m.Id)+" "+tokOpt(m.PubKey), func() string {
+		b, err := types.MarshalMember(m)
+		if err != nil {
+			return errClass(err)
+		}
+		out = b
+		return hx.Hex(b)
+	})
+	return out
+}
+
 func parseOp(kind string, b []byte) string {
 	switch kind {
+	case "mu":
+		return ansMU(b)
+	case "Gu":
+		return ansGroups(b)
 	case "hu":
 		return ansHU(b)
 	case "tu", "tuc":
@@ -666,6 +716,7 @@ var nested = map[string]map[uint64]string{
 	"s": {1: "t"},
 	"h": {12: "x", 19: "y"},
 	"g": {1: "q"},
+	"G": {1: "g"},
 }
 
 var timeFields = map[string]map[uint64]bool{"h": {4: true, 7: true}, "q": {5: true}}
@@ -911,7 +962,7 @@ func corr(a map[string]string) {
 	nCorpus := runCorpus(out)
 
 	// small scope: every 1-byte string and a slice of the 2-byte strings, through every parser
-	for _, k := range []string{"tu", "hu", "su", "bu", "gu"} {
+	for _, k := range []string{"tu", "hu", "su", "bu", "gu", "mu", "Gu"} {
 		doParse(out, k, nil)
 		for x := 0; x < 256; x++ {
 			doParse(out, k, []byte{byte(x)})
@@ -974,10 +1025,30 @@ func corr(a map[string]string) {
 				valid["g"] = append(valid["g"], b)
 			}
 		}
+		// member
+		if i%4 == 0 {
+			m := &types.Member{Id: g.optBytes(), PubKey: g.optBytes()}
+			if b := doMM(out, m); b != nil {
+				doParse(out, "mu", b)
+				valid["m"] = append(valid["m"], b)
+			}
+		}
+		// group slice (group sync response path: PbToGroups)
+		if i%5 == 0 {
+			n := g.r.Pick(0, 1, 2, 3)
+			gs := &middleware_pb.GroupSlice{}
+			for k := 0; k < n; k++ {
+				gs.Groups = append(gs.Groups, types.GroupToPb(g.group(prod)))
+			}
+			if b, err := proto.Marshal(gs); err == nil {
+				doParse(out, "Gu", b)
+				valid["G"] = append(valid["G"], b)
+			}
+		}
 	}
 	// every optional field absent, one at a time (first few valid messages of each kind)
-	kinds := map[string]string{"h": "hu", "t": "tu", "s": "su", "b": "bu", "g": "gu"}
-	for _, k := range []string{"h", "t", "s", "b", "g"} {
+	kinds := map[string]string{"h": "hu", "t": "tu", "s": "su", "b": "bu", "g": "gu", "m": "mu", "G": "Gu"}
+	for _, k := range []string{"h", "t", "s", "b", "g", "m", "G"} {
 		for i, b := range valid[k] {
 			if i >= 3*scale {
 				break
@@ -989,7 +1060,7 @@ func corr(a map[string]string) {
 	}
 	// malformed stream
 	for i := 0; i < 1500*scale; i++ {
-		k := []string{"h", "t", "s", "b", "g"}[g.r.Intn(5)]
+		k := []string{"h", "t", "s", "b", "g", "h", "t", "b", "g", "m", "G"}[g.r.Intn(11)]
 		if len(valid[k]) == 0 {
 			continue
 		}
@@ -998,7 +1069,7 @@ func corr(a map[string]string) {
 	}
 	// random byte strings
 	for i := 0; i < 300*scale; i++ {
-		k := []string{"hu", "tu", "su", "bu", "gu"}[g.r.Intn(5)]
+		k := []string{"hu", "tu", "su", "bu", "gu", "mu", "Gu"}[g.r.Intn(7)]
 		doParse(out, k, g.r.Bytes(g.r.Intn(24)))
 	}
 	fmt.Printf("STATS {\"corpus\":%d,\"dist\":%s}\n", nCorpus, out.StatsJSON())
@@ -1101,7 +1172,7 @@ func (s *searcher) checkParse(kind string, b []byte) {
 	s.evals++
 	res := hx.Guard(func() string { return parseOp(kind, b) })
 	s.dist[kind+":"+strings.SplitN(res, " ", 2)[0]] = true
-	name := map[string]string{"hu": "UnMarshalBlockHeader", "tu": "UnMarshalTransaction", "su": "UnMarshalTransactions",
+	name := map[string]string{"mu": "UnMarshalMember", "Gu": "PbToGroups", "hu": "UnMarshalBlockHeader", "tu": "UnMarshalTransaction", "su": "UnMarshalTransactions",
 		"bu": "UnMarshalBlock", "gu": "UnMarshalGroup"}[kind]
 	rp := map[string]string{"call": name, "bytes": hx.Hex(b), "observed": res}
 	switch {
@@ -1281,9 +1352,13 @@ func (s *searcher) run(g *gen, n int) {
 			s.parsedHeaderRoundtrip(mb)
 		}
 		// --- totality on hostile input
-		for _, k := range []string{"h", "t", "s", "b", "g"} {
+		for _, k := range []string{"h", "t", "s", "b", "g", "m", "G"} {
 			var b []byte
 			switch k {
+			case "m":
+				b, _ = types.MarshalMember(&types.Member{Id: g.r.Bytes(3), PubKey: g.r.Bytes(4)})
+			case "G":
+				b, _ = proto.Marshal(&middleware_pb.GroupSlice{Groups: []*middleware_pb.Group{types.GroupToPb(g.group(false)), types.GroupToPb(g.group(false))}})
 			case "h":
 				b, _ = types.MarshalBlockHeader(g.header(false))
 			case "t":
@@ -1295,7 +1370,7 @@ func (s *searcher) run(g *gen, n int) {
 			case "g":
 				b, _ = types.MarshalGroup(g.group(false))
 			}
-			kind := map[string]string{"h": "hu", "t": "tu", "s": "su", "b": "bu", "g": "gu"}[k]
+			kind := map[string]string{"h": "hu", "t": "tu", "s": "su", "b": "bu", "g": "gu", "m": "mu", "G": "Gu"}[k]
 			s.checkParse(kind, g.mutate(k, b, 0))
 			if i < 40 {
 				for _, m := range dropEach(k, b, 0) {
@@ -1339,7 +1414,7 @@ func search(a map[string]string) {
 		b, _ := hx.UnHex(w)
 		s.parsedHeaderRoundtrip(b)
 	}
-	for _, k := range []string{"tu", "hu", "su", "bu", "gu"} {
+	for _, k := range []string{"tu", "hu", "su", "bu", "gu", "mu", "Gu"} {
 		for x := 0; x < 256; x++ {
 			s.checkParse(k, []byte{byte(x)})
 		}
